@@ -37,11 +37,11 @@ func drawCtx(t *rapid.T, label string) []byte {
 	case 2:
 		return []byte{0}
 	case 3:
-		return append([]byte{0, 0}, rapid.SliceOfN(rapid.Byte(), 0, 8).Draw(t, label)...)
+		return append([]byte{0, 0}, gen.Bytes(t, 0, 8, label)...)
 	case 4:
-		return rapid.SliceOfN(rapid.Byte(), 100, 400).Draw(t, label+"/long")
+		return gen.Bytes(t, 100, 400, label+"/long")
 	}
-	return rapid.SliceOfN(rapid.Byte(), 0, 40).Draw(t, label)
+	return gen.Bytes(t, 0, 40, label)
 }
 
 func TestBlinding(t *testing.T) {
@@ -51,7 +51,7 @@ func TestBlinding(t *testing.T) {
 		b1 := gen.Bytes32().Draw(t, "blind1")
 		b2 := gen.Bytes32().Draw(t, "blind2")
 		ctx := drawCtx(t, "ctx")
-		msg := rapid.SliceOfN(rapid.Byte(), 0, 200).Draw(t, "msg")
+		msg := gen.Bytes(t, 0, 200, "msg")
 		s.Eval()
 		s.Nontrivial(seed, b1, ctx, msg)
 		priv := pated.NewKeyFromSeed(seed)
@@ -127,7 +127,7 @@ func TestBlinding(t *testing.T) {
 				return
 			}
 		}
-		ctx2 := append(append([]byte{}, ctx...), rapid.SliceOfN(rapid.Byte(), 1, 3).Draw(t, "ctxsuffix")...)
+		ctx2 := append(append([]byte{}, ctx...), gen.Bytes(t, 1, 3, "ctxsuffix")...)
 		bpc, err := pated.BlindPublicKeyWithContext(pub, append([]byte{}, b1...), ctx2)
 		if err != nil || bytes.Equal(bpc, bp) {
 			fail("context-unbound", "contexts %x and %x give the same blinded key", ctx, ctx2)
@@ -137,6 +137,25 @@ func TestBlinding(t *testing.T) {
 			fail("context-unbound", "signature made with context %x verifies under the key blinded with context %x", ctx, ctx2)
 			return
 		}
-		s.Sample(func() any { return map[string]any{"pub": rt.Hex(pub), "blind": rt.Hex(b1), "ctx": rt.Hex(ctx), "blinded": rt.Hex(bp), "sig": rt.Hex(sig)} })
+		// a sequence of signing calls with the same key and blind under changing contexts, and with the other blind:
+		// every signature must verify under the key blinded with ITS context/blind, and repeating the first call must repeat its output
+		sigC2 := pated.BlindKeySignWithContext(priv, msg, append([]byte{}, b1...), ctx2)
+		if !stded.Verify(stded.PublicKey(bpc), msg, sigC2) {
+			fail("sign-verify-std-sequence", "signature made with context %x right after one made with context %x (same key, same blind) does not verify under the key blinded with %x", ctx2, ctx, ctx2)
+			return
+		}
+		sigB2 := pated.BlindKeySignWithContext(priv, msg, append([]byte{}, b2...), ctx2)
+		bp2c, _ := pated.BlindPublicKeyWithContext(pub, append([]byte{}, b2...), ctx2)
+		if !stded.Verify(stded.PublicKey(bp2c), msg, sigB2) {
+			fail("sign-verify-std-sequence", "signature made with the second blind does not verify under the key blinded with it")
+			return
+		}
+		if again := pated.BlindKeySignWithContext(priv, msg, append([]byte{}, b1...), ctx); !bytes.Equal(again, sig) {
+			fail("sign-nondeterministic", "repeating the first blind-key signature after other signing calls gives different bytes")
+			return
+		}
+		s.Sample(func() any {
+			return map[string]any{"pub": rt.Hex(pub), "blind": rt.Hex(b1), "ctx": rt.Hex(ctx), "blinded": rt.Hex(bp), "sig": rt.Hex(sig)}
+		})
 	})
 }
